@@ -46,12 +46,17 @@ static void check_basins(vh::Ctx& c, const FlowCase& fc, va::IGraph& g, const st
     }
     if (distinct.size() != want_outlets.size())
         c.fail("label-count", tag + " " + std::to_string(distinct.size()) + " distinct labels for " + std::to_string(want_outlets.size()) + " unmasked outlets");
+    // (outlets() and pits() are sets: the order in which the library lists them is its own)
+    std::sort(outlets.begin(), outlets.end());
+    std::sort(pits.begin(), pits.end());
+    std::sort(want_outlets.begin(), want_outlets.end());
     if (outlets != want_outlets)
         c.fail("outlets", tag + " outlets() " + vg::describe_set(outlets) + " expected " + vg::describe_set(want_outlets));
     std::vector<size_t> want_pits;
     for (auto ol : want_outlets)
         if (!fc.isbase[ol])
             want_pits.push_back(ol);
+    std::sort(want_pits.begin(), want_pits.end());
     if (pits != want_pits)
         c.fail("pits", tag + " pits() " + vg::describe_set(pits) + " expected outlets that are not base levels " + vg::describe_set(want_pits));
 }
